@@ -753,14 +753,14 @@ Proof.
 Qed.
 
 (* ================================================================== the C02 property, of the translated source *)
-(* For a valid scenario s (C02_Model.valid) and a registry list reg that is a permutation of its tests (what reverse / shuffle
+(* For a valid scenario s (C02_Model.valid1: its tests and the configuration of one run) and a registry list reg that is a permutation of its tests (what reverse / shuffle
    leave, C02_HeapTie), one translated runAllTests on a heap representing reg with the scenario's flags returns, appends events
    whose reading (abs_run) is a word w and counters k, and the repetition (order, w, k) satisfies the model-free oracle
    C02_Model.rep_ok: the order is a permutation of the registered tests, the word is (GS (TS B? TE)* GE)* inside one
    testsStarted / testsEnded, every selected test is started exactly once and its body runs exactly once iff it executes,
    counters exact. *)
 Theorem src_runAllTests_meets_C02 (s : scenario) reg gcode fuel h rb bs plug sep rep evs0 rest seeds drawn :
-  valid s = true -> Permutation.Permutation reg (s_tests s) ->
+  valid1 s = true -> Permutation.Permutation reg (s_tests s) ->
   (s_shuffle s = false -> map t_id reg = C02_Proofs.expected_order s) ->
   reg_at h rb bs reg gcode plug sep (s_ri s) rep -> gcode_ok gcode (map t_group reg) ->
   (length reg < fuel)%nat -> - 2 ^ 31 <= rep -> rep + 1 < 2 ^ 31 ->
